@@ -448,6 +448,11 @@ func (e *Engine) block(b *cfg.Block, st *State, push func(*cfg.Block, *State), e
 			push(b.Succs[0], s)
 		}
 	case 0:
+		if b.Kind == cfg.KindSelectAfterCase {
+			// go/cfg ends the "no case ready" chain of a select without default in a block
+			// without successors; such a select blocks, so this is not an exit
+			return
+		}
 		var last ast.Node
 		if len(b.Nodes) > 0 {
 			last = b.Nodes[len(b.Nodes)-1]
@@ -479,8 +484,9 @@ func (e *Engine) block(b *cfg.Block, st *State, push func(*cfg.Block, *State), e
 }
 
 func short(s string) string {
-	if len(s) > 70 {
-		return s[:67] + "..."
+	r := []rune(s)
+	if len(r) > 70 {
+		return string(r[:67]) + "..."
 	}
 	return s
 }
